@@ -117,6 +117,10 @@ class CSVTracksBuilder(TracksBuilder):
         if "id" in df.columns and "parent_id" in df.columns:
             df = _ensure_integer_ids(df)
 
+        # Keep the parent column as it is: replacing NaN by None below turns a nullable
+        # integer column into floats, which cannot hold ids above 2**53
+        parent_ids = df["parent_id"].tolist()
+
         # Convert NaN to None
         df = df.map(lambda x: None if pd.isna(x) else x)
 
@@ -143,7 +147,7 @@ class CSVTracksBuilder(TracksBuilder):
         # Convert DataFrame to InMemoryGeff format
         df_dict = df.to_dict(orient="list")
         node_ids = np.array(df_dict.pop("id"))
-        parent_ids = df_dict.pop("parent_id")
+        df_dict.pop("parent_id")
 
         # Build node_props with GEFF-compatible structure
         # Store position coordinates as individual attributes (z, y, x)
